@@ -40,7 +40,7 @@ pub fn info() -> PropInfo {
         id: "C12",
         run,
         replay,
-        rule: "cases = (well-formed document with repeated names at several depths, <n/> and <n></n> forms, comments/CDATA/PIs/attribute values/text containing look-alike end tags, blanks before '>' of end tags; a start event of that document; trim_text_start/trim_text_end/expand_empty_elements, name trimming on/off (off: documents without blanks in end tags), name checking on/off; read_to_end / read_text on the slice, read_to_end_into on a chunked source, read_to_end_into_async; optionally the document truncated somewhere after the chosen start tag). Oracle from the generator's tree: the returned span is exactly (end of the start tag, offset of '<' of the matching end tag), empty for an expanded empty element; read_text returns input[span]; the next event equals the event following that end tag in a plain full read; config() after the call equals config() before it, also when the call fails. EVERY start event of sampled documents, plus proptest (document, start, truncation). Non-trivial = the skipped element contains a nested element of the same name or a look-alike end tag, or the call failed.",
+        rule: "cases = (well-formed document with repeated names at several depths, <n/> and <n></n> forms, comments/CDATA/PIs/attribute values/text containing look-alike end tags, blanks before '>' of end tags; a start event of that document; trim_text_start/trim_text_end/expand_empty_elements, name trimming on/off (off: documents without blanks in end tags), name checking on/off; read_to_end / read_text on the slice, read_to_end_into on a chunked source, read_to_end_into_async; optionally the document truncated somewhere after the chosen start tag). Oracle from the generator's tree: the returned span is exactly (end of the start tag, offset of '<' of the matching end tag), empty for an expanded empty element; read_text returns input[span]; the next event equals the event following that end tag in a plain full read; config() after the call equals config() before it, also when the call fails. EVERY start event of sampled documents, plus proptest (document, start, truncation). Non-trivial = the skipped element contains a nested element of the same name or a look-alike end tag, or the call failed. In half of the cases the reader has a HISTORY before the call under test: a small element in front of the document is skipped first - with an ill-formed body, so that the call fails with a recoverable error, or well-formed - while the trimming switches have the opposite values; the switches are then set to the case's values and the call under test must behave as if nothing had happened before.",
         assumptions: &["documents are well-formed; name checking stays on (default)", "a truncated document must make the call fail when the cut lies before the end of the matching end tag"],
         level: "exploration",
         variants: &["full"],
